@@ -99,7 +99,12 @@ func idPadded(sym string, n, l int) string {
 	if len(id) >= l {
 		return id[:l]
 	}
-	return id + strings.Repeat("=", l-len(id))
+	pad := l - len(id)
+	if (n+l)%3 == 0 {
+		// multi-byte padding: limits count bytes, not characters
+		return id + strings.Repeat("é", pad/2) + strings.Repeat("=", pad%2)
+	}
+	return id + strings.Repeat("=", pad)
 }
 
 // App is a whole application.
